@@ -89,6 +89,8 @@ def check_roundtrip(ctx, case, stratum="roundtrip"):
         except Exception as e:  # noqa: BLE001
             bad("payload-not-package-json", z, "package JSON (zstd iff bit0)", f"{type(e).__name__}: {e}"[:200])
         ctx.count("monitor:roundtrip-bytes")
+        if pkg.to_bytes(cfg) != raw:
+            bad("second-encoding-differs", z, "the same bytes", "differs")
         back = pkg_docs(Package.from_bytes(raw))
         if back != want:
             p = diff(want, back)[0]
